@@ -4,6 +4,7 @@
 //! archives (`UnnamedMemJar`, the way the program uses the merge) or as `ParsedJar`s, merged by the
 //! real crate, and the result is (a) judged by an oracle that knows only the property text and
 //! (b) printed, together with the inputs, as a Gallina `case` for the model in coq/C13.
+mod anntree;
 mod classes;
 mod gen;
 mod real;
@@ -829,6 +830,9 @@ pub fn run(ctx: &Ctx) -> anyhow::Result<Report> {
 		for k in kinds { r.count(&format!("real:{k}")); }
 		jar_case(&mut r, &format!("realjar-{}", route.name()), "real", true, &client, &server, route, true, &tmp);
 	}
+	// 8. (round 7) the side marks as whole annotation trees
+	anntree::run(&mut r, &mut rng.fork(0xA77), ctx.thorough);
+
 	let _ = std::fs::remove_dir_all(&tmp);
 	r.count_n("class pairs generated without opaque-field variants (duke does not round-trip the combination)", gen::PLAINER.load(std::sync::atomic::Ordering::Relaxed) as u64);
 	let ext = EXT_SEEN.load(std::sync::atomic::Ordering::Relaxed);
